@@ -384,6 +384,11 @@ func judge(r *kit.Run, a *adapter, before, after *tracked, cs []*hdrCase, what s
 			key = a.name + ":advance-valset-hash-mismatch"
 		case !c.quorum():
 			key = a.name + ":advance-without-two-thirds"
+			for _, k := range c.spec.Kinds {
+				if k == tmsynth.SigCopy {
+					key = a.name + ":repeated-validator-signature-counted"
+				}
+			}
 		}
 	} else if len(cs) == 0 {
 		key = a.name + ":tracked-changed-without-header"
@@ -505,7 +510,7 @@ func headerEpisode(t *testing.T, r *kit.Run, a *adapter, rng *rand.Rand, maxN, s
 		up := int64(1 + rng.Intn(5))
 		base := tmsynth.Spec{Height: before.H + up, BlockVersion: bv, Vals: cur, NextHash: nextHash, Salt: byte(step)}
 		var cs []*hdrCase
-		opk := rng.Intn(12)
+		opk := rng.Intn(13)
 		opName := ""
 		switch opk {
 		case 0, 1: // honest advance: minimal quorum or everybody, the rest absent / nil
@@ -526,6 +531,33 @@ func headerEpisode(t *testing.T, r *kit.Run, a *adapter, rng *rand.Rand, maxN, s
 			s.Kinds = kindsFor(rng, tmsynth.Order(cur, bv), signers(rng, cur, exact, mode), hostile)
 			cs = append(cs, a.build(rng, s, "short+hostile-"+mode))
 			opName = "short-hostile"
+		case 12: // at most two thirds sign; every other slot repeats the complete CommitSig of a signer
+			mode := []string{"below", "exact", "one"}[rng.Intn(3)]
+			sg := signers(rng, cur, exact, mode)
+			if mode == "one" || len(sg) == 0 { // a single validator (not holding 2/3 alone) in every slot
+				sg = map[*tmsynth.Val]bool{}
+				v := cur[rng.Intn(len(cur))]
+				if 3*v.Power <= 2*tmsynth.Total(cur) {
+					sg[v] = true
+				}
+			}
+			s := base
+			ordv := tmsynth.Order(cur, bv)
+			s.Kinds = kindsFor(rng, ordv, sg, []tmsynth.SigKind{tmsynth.SigCopy})
+			var srcs []int
+			for i, v := range ordv {
+				if sg[v] {
+					srcs = append(srcs, i)
+				}
+			}
+			if len(srcs) > 0 {
+				s.CopyFrom = make([]int, len(ordv))
+				for i := range s.CopyFrom {
+					s.CopyFrom[i] = srcs[rng.Intn(len(srcs))]
+				}
+			}
+			cs = append(cs, a.build(rng, s, "short+copies-"+mode))
+			opName = "short-copies"
 		case 5: // enough honest signers but one made-up slot besides (poly may refuse; never required to accept)
 			s := base
 			s.Kinds = kindsFor(rng, tmsynth.Order(cur, bv), signers(rng, cur, exact, "above"), append(append([]tmsynth.SigKind{}, benign...), hostile...))
@@ -653,6 +685,13 @@ func headerEpisode(t *testing.T, r *kit.Run, a *adapter, rng *rand.Rand, maxN, s
 		}
 		r.Count(a.name+"_op_"+opName, 1)
 		r.Count(a.name+"_quorum_"+quorumClass(c0), 1)
+		for _, c := range cs {
+			for _, k := range c.spec.Kinds {
+				if k == tmsynth.SigCopy && c.validPower > 0 {
+					r.Count(a.name+"_copied_commit_sigs_submitted", 1)
+				}
+			}
+		}
 		what := fmt.Sprintf("syncBlockHeader(%s) ok=%v err=%q", opName, rec.Ok, rec.Err)
 		if !judge(r, a, before, after, cs, what, func() interface{} {
 			return map[string]interface{}{"router": a.name, "before": before.String(), "after": after.String(), "headers": describe(cs)}
@@ -676,7 +715,7 @@ func headerEpisode(t *testing.T, r *kit.Run, a *adapter, rng *rand.Rand, maxN, s
 			bv = nbv
 			r.Count(a.name+"_upgrades_to_v11", 1)
 		}
-		if same(before, after) && (opName == "short" || opName == "short-hostile") && quorumClass(c0) == "exact" {
+		if same(before, after) && (opName == "short" || opName == "short-hostile" || opName == "short-copies") && quorumClass(c0) == "exact" {
 			r.Count(a.name+"_exact_two_thirds_refused", 1)
 			if r.Get(a.name+"_exact_two_thirds_refused") == 1 {
 				r.Sample(map[string]interface{}{"router": a.name, "case": "exactly 2/3 refused", "err": rec.Err, "headers": describeShort(cs)})
@@ -821,7 +860,7 @@ func depositEpisode(t *testing.T, r *kit.Run, a *adapter, rng *rand.Rand, maxN, 
 			appHash = make([]byte, 32)
 			rng.Read(appHash)
 		case "unverified-header":
-			switch rng.Intn(4) {
+			switch rng.Intn(5) {
 			case 0:
 				mode = "below"
 			case 1:
@@ -831,6 +870,8 @@ func depositEpisode(t *testing.T, r *kit.Run, a *adapter, rng *rand.Rand, maxN, 
 			case 3:
 				hv, _ = newSet(rng, a, 1+rng.Intn(maxN), shapes[rng.Intn(len(shapes))])
 				foreign = true
+			case 4:
+				mode, filler = "below", []tmsynth.SigKind{tmsynth.SigCopy} // a signer's CommitSig repeated in the other slots
 			}
 		case "absence-empty-kp", "absence-with-kp":
 			value, proofKey = forgedAbsentMessage(rng, a.store, ep*1000+ci)
@@ -918,7 +959,7 @@ func depositEpisode(t *testing.T, r *kit.Run, a *adapter, rng *rand.Rand, maxN, 
 func TestC30(t *testing.T) {
 	r := kit.Start(t, "C30", "exploration")
 	defer r.Finish()
-	r.Rule("per router: episodes = a synthetic chain (block version, N validators, power shape) followed through submissions of kinds {honest minimal/all quorum, at most 2/3 (just below / exactly) with absent+nil fillers, same with forged/wrong-height/wrong-block/wrong-chain/foreign-key/nil-as-commit fillers, quorum+noise, foreign validator set, not-higher height, commit/header mismatch, multi-header calls (heights ascending / descending / arbitrary within the call), no-change, second genesis}; deposits = {honest existence, wrong value, wrong key path, other/random app hash, unverifiable header, absence proof with empty / non-empty key path, existence proof with empty key path, proof of another key}; distinct = (router, version, N, shape, kind, slot-kind vector, quorum class, outcome)")
+	r.Rule("per router: episodes = a synthetic chain (block version, N validators, power shape) followed through submissions of kinds {honest minimal/all quorum, at most 2/3 (just below / exactly) with absent+nil fillers, same with forged/wrong-height/wrong-block/wrong-chain/foreign-key/nil-as-commit fillers, same with the complete CommitSig of a signer repeated in the other slots, quorum+noise, foreign validator set, not-higher height, commit/header mismatch, multi-header calls (heights ascending / descending / arbitrary within the call), no-change, second genesis}; deposits = {honest existence, wrong value, wrong key path, other/random app hash, unverifiable header, absence proof with empty / non-empty key path, existence proof with empty key path, proof of another key}; distinct = (router, version, N, shape, kind, slot-kind vector, quorum class, outcome)")
 	r.Assume("tendermint v0.33.7 / switcheo tendermint v0.34.14 (hashes, sign-bytes, key types), cosmos-sdk v0.39.1 rootmulti + iavl v0.14.0 (app hashes, proofs) are the reference producers of honest data")
 	r.Assume("'valid signature' is judged by construction: a slot counts iff the check itself signed the canonical precommit (chain id, commit height = header height, round, block id = header hash) with the validator's own key")
 	r.Assume("'validator set hashes to the trusted next-validator hash' accepts either the amino-era or the protobuf-era hash of the submitted set (weaker reading, covers the chain-upgrade block)")
@@ -980,6 +1021,8 @@ func TestC30(t *testing.T) {
 		r.Require(a.name+"_exact_two_thirds_refused", r.N(3, 30))
 		r.Require(a.name+"_op_not-higher", 3)
 		r.Require(a.name+"_op_multi-descending", 3)
+		r.Require(a.name+"_op_short-copies", 3)
+		r.Require(a.name+"_copied_commit_sigs_submitted", 3)
 		r.Require(a.name+"_op_foreign-valset", 3)
 		r.Require(a.name+"_deposit_honest_accepted", r.N(3, 30))
 		r.Require(a.name+"_deposit_refused", r.N(10, 100))
